@@ -148,6 +148,10 @@ func (c *Conn) checkEOF() {
 // note: getting this data means resetting it! so handle it wisely.
 // we also read out the In channel until it blocks.  Don't send any more input after calling this.
 func (c *Conn) getRedo() [][]byte {
+	// wait until HandleData (and checkEOF) have returned: the connection is down, so they are on their
+	// way out. HandleData may still hold a line it has taken from In but not yet added to keepSafe;
+	// collecting before it is done would miss that line (it would be neither delivered nor spooled).
+	c.wg.Wait()
 	// drain In queue in case we still had some data buffered.
 	// normally this channel should already have been closed by the time we call this, but this is hard/complicated to enforce
 	// so instead let's leverage a select. as soon as it blocks (due to chan close or no more input but not closed yet) we know we're
